@@ -7,4 +7,4 @@ seams.install()
 d=json.load(open(sys.argv[1]))
 mod = importlib.import_module(d['check'])
 res = runner.execute(mod, runner._revive(d['scenario']), d['run_seed'], tape=d['tape'], log=True)
-print(res['violations']); print(res.get('debug'))
+print(res['violations']); print(res.get('debug')); print(res.get('state'))
